@@ -168,10 +168,20 @@ type c11case struct {
 	items        []*specxml.Item // dictionary-conforming body (modes app/fixt)
 	hasXML       bool
 	hasGroup     bool
+	hops         [][]fixwire.Field // entries of the header group NoHops (627), nil = none
 }
+
+// lastHops: the hop entries genHeaderRest put into the header it built last (nil = none).
+var lastHops [][]fixwire.Field
 
 func genHeaderRest(t *rapid.T, msgType string, withXML *bool) []fixwire.Field {
 	rest := []fixwire.Field{fixwire.F(35, msgType)}
+	lastHops = nil
+	hopsAt := -1
+	if rapid.IntRange(0, 4).Draw(t, "hops") == 0 {
+		// the header's own repeating group: NoHops (627) with HopCompID, HopSendingTime, HopRefID
+		hopsAt = rapid.IntRange(0, 3).Draw(t, "hopsat")
+	}
 	pool := append([]int{}, fixwire.HeaderTags()...)
 	n := rapid.IntRange(0, len(pool)).Draw(t, "nheader")
 	perm := rapid.Permutation(pool).Draw(t, "hperm")
@@ -184,6 +194,21 @@ func genHeaderRest(t *rapid.T, msgType string, withXML *bool) []fixwire.Field {
 			data := rapid.SliceOfN(rapid.SampledFrom([]byte{1, '<', 'a', '>', '=', '1', '0', '|', 1, 'x'}), 1, 30).Draw(t, "xmldata")
 			rest = append(rest, fixwire.F(212, strconv.Itoa(len(data))), fixwire.Field{Tag: 213, Value: data})
 			*withXML = true
+		}
+		if i == hopsAt || (hopsAt > n && i == n) {
+			nh := rapid.IntRange(1, 3).Draw(t, "nhops")
+			rest = append(rest, fixwire.F(627, strconv.Itoa(nh)))
+			for h := 0; h < nh; h++ {
+				e := []fixwire.Field{fixwire.F(628, "HOP"+strconv.Itoa(h))}
+				if rapid.Bool().Draw(t, "hoptime") {
+					e = append(e, fixwire.F(629, "20240102-03:04:0"+strconv.Itoa(h)))
+				}
+				if rapid.Bool().Draw(t, "hopref") {
+					e = append(e, fixwire.F(630, strconv.Itoa(10+h)))
+				}
+				rest = append(rest, e...)
+				lastHops = append(lastHops, e)
+			}
 		}
 		if i < n {
 			rest = append(rest, fixwire.Field{Tag: perm[i], Value: genWireValue(t)})
@@ -213,6 +238,7 @@ func genC11(t *rapid.T, d map[string]*dictPair) *c11case {
 		cs.begin = rapid.SampledFrom([]string{"FIX.4.0", "FIX.4.2", "FIX.4.4", "FIXT.1.1", "X"}).Draw(t, "begin")
 		mt := rapid.SampledFrom([]string{"D", "8", "0", "A", "AE", "zz"}).Draw(t, "mt")
 		cs.rest = genHeaderRest(t, mt, &cs.hasXML)
+		cs.hops = lastHops
 		nb := rapid.IntRange(0, 12).Draw(t, "nbody")
 		seen := map[int]bool{}
 		for i := 0; i < nb; i++ {
@@ -246,6 +272,7 @@ func genC11(t *rapid.T, d map[string]*dictPair) *c11case {
 		cs.items = dp.spec.GenMembers(rapidChooser{t}, members, specxml.GenOpts{OptionalOneIn: rapid.SampledFrom([]int{2, 4, 8}).Draw(t, "opt"), MaxEntries: 3, MaxDepth: 3}, 0, false)
 		var dummy bool
 		cs.rest = genHeaderRest(t, md.MsgType, &dummy)
+		cs.hops = lastHops
 		// XMLData inside dictionary modes is left to mode none (the dictionary header lists 212/213 too, same path)
 		cs.hasXML = dummy
 		// with the custom transport dictionary its extra header field is carried once: among the
@@ -434,6 +461,9 @@ func c11Property(t *rapid.T) {
 			}
 			continue
 		}
+		if cs.hops != nil && (f.Tag == 628 || f.Tag == 629 || f.Tag == 630) {
+			continue // members of the header group: read back through the template below
+		}
 		fm, name := sectionOf(m, f.Tag)
 		if cs.customHeader != 0 && f.Tag == cs.customHeader {
 			fm, name = &m.Header.FieldMap, "header(by-dictionary)"
@@ -444,6 +474,24 @@ func c11Property(t *rapid.T) {
 		}
 		if !bytes.Equal(got, f.Value) {
 			vk.Violation(t, c, "C11/field/value-differs/"+name+"/"+cs.mode, "tag %d: %q want %q in %s", f.Tag, got, f.Value, vk.Show(raw))
+		}
+	}
+	// the header's repeating group reads back through its template
+	if cs.hops != nil {
+		c.Class("with-header-group-NoHops")
+		rg := quickfix.NewRepeatingGroup(627, quickfix.GroupTemplate{quickfix.GroupElement(628), quickfix.GroupElement(629), quickfix.GroupElement(630)})
+		if err := m.Header.GetGroup(rg); err != nil {
+			vk.Violation(t, c, "C11/group/error/header-hops/"+cs.mode, "Header.GetGroup(627): %v in %s", err, vk.Show(raw))
+		}
+		if rg.Len() != len(cs.hops) {
+			vk.Violation(t, c, "C11/group/differs/header-hops/"+cs.mode, "%d hops read, %d on the wire: %s", rg.Len(), len(cs.hops), vk.Show(raw))
+		}
+		for i, e := range cs.hops {
+			for _, f := range e {
+				if got, err := rg.Get(i).GetBytes(quickfix.Tag(f.Tag)); err != nil || !bytes.Equal(got, f.Value) {
+					vk.Violation(t, c, "C11/group/differs/header-hops/"+cs.mode, "hop %d tag %d: %q (err %v), wire has %q: %s", i, f.Tag, got, err, f.Value, vk.Show(raw))
+				}
+			}
 		}
 	}
 	// ... and exposes nothing else: every tag a section holds is a tag of the wire (whatever was
